@@ -11,6 +11,7 @@
 #include <mpfr.h>
 #include <algorithm>
 #include <map>
+#include <memory>
 
 using namespace GeographicLib;
 using namespace std;
@@ -335,79 +336,217 @@ static vector<long long> limbs3(mpfr_ptr v, int bb, bool& ok) {
   if (mpfr_cmpabs_ui(a, 1000000000UL) > 0) return out;
   out[2] = mpfr_get_si(a, MPFR_RNDN); ok = true; return out;
 }
-// history on the limb lattice: ops (k, a, b): 0 add b*B^a ; 1 negate (*= -1) ; 2 *= int b ; 3 *= T(b) ; 4 probe a(b*B^a)
+// three-way comparison of the reported value a() with y and the six comparison operators of the class:
+// "[c,eq,ne,lt,le,gt,ge]" (c = 2 when unordered)
+template<class T> static string cmp_family(const Accumulator<T>& acc, T y) {
+  T v = acc(); int c = v < y ? -1 : v > y ? 1 : v == y ? 0 : 2;
+  auto B = [](bool x) { return x ? ",true" : ",false"; };
+  return "[" + to_string(c) + B(acc == y) + B(acc != y) + B(acc < y) + B(acc <= y) + B(acc > y) + B(acc >= y) + "]";
+}
+// low word of the accumulator, read through the public interface (copy, subtract the reported value, read again)
+template<class T> static T lowword(const Accumulator<T>& acc) { Accumulator<T> c(acc); T s = c(); if (!std::isfinite(s)) return T(0); c -= s; return c(); }
+// remainder(y) on a copy of acc: one "rem" record that holds only what the documented range ("Reduce accumulator to the
+// range [-y/2, y/2]") needs: exact comparison rh = cmp(|held after|, y/2), the limbs before / after when they are lattice
+// integers, and tl = 1 when the low word before the call is non-zero.  kf names that input class (the library reduces
+// only the high word).  Congruence modulo y is judged in the acc / accr record.
+template<class T> static void rem_record(const Accumulator<T>& acc, T y, const char* src, int bb, const string& hist, const char* kfclass = nullptr, const string& in = "") {
+  typedef FT<T> F;
+  M before(BIG), after(BIG), half(BIG);
+  bool okb = peel(acc, before);
+  T tlw = lowword(acc);
+  Accumulator<T> c(acc); c.remainder(y);
+  bool oka = peel(c, after);
+  mset(half, y); mpfr_div_2ui(half, half, 1, MPFR_RNDN); mpfr_abs(half, half, MPFR_RNDN);
+  int rh = 2; if (oka) { int k = mpfr_cmpabs(after, half); rh = k < 0 ? -1 : k > 0 ? 1 : 0; }
+  bool lb = false, la = false; vector<long long> Lb = limbs3(before, bb, lb), La = limbs3(after, bb, la);
+  bool yint = y == floor(y) && fabs(y) < T(32768);
+  Rec r; r.str("e", "rem").str("ty", string(1, F::tag)).str("src", src).str("in", in).i("bb", bb).raw("ops", hist)
+    .i("lat", okb && oka && lb && la && yint ? 1 : 0).i("b", yint ? (long long) y : 0).raw("y", numj(y))
+    .li("before", Lb).li("after", La).i("rh", rh).i("tl", tlw != 0 ? 1 : 0)
+    .str("kf", kfclass ? kfclass : tlw != 0 ? "acc-remainder-lowword" : "");      // information only: no law looks at it
+  r.emit();
+}
+// the edge of the documented range: sum = (k + 1/2) y exactly, plus or minus a term far below the last place of the high
+// word (so that it lives in the low word); the reduced value must still be in [-y/2, y/2]
+template<class T> static void do_rem_edge(vt::Rng& g) {
+  typedef FT<T> F;
+  T y = g.coin() ? T(360) * ldexp(T(1), int(g.range(-3, 3))) : ldexp(T(2 * g.range(1, 2000)), int(g.range(-20, 20)));
+  int k = int(g.range(-4, 3));
+  T edge = (T(2 * k + 1) * y) / 2;                                 // exact: y has few bits
+  T tiny = ldexp(y, -int(g.range(F::P + 2, F::P + 40))) * (g.coin() ? 1 : -1);
+  Accumulator<T> acc;
+  if (g.coin()) { acc += edge; acc += tiny; } else { acc = edge; acc -= -tiny; }
+  char buf[160]; snprintf(buf, sizeof buf, "sum = %La + %La; remainder(%La)", (long double) edge, (long double) tiny, (long double) y);
+  rem_record(acc, y, "edge", F::P == 24 ? 15 : 30, "[]", "acc-remainder-edge", buf);
+}
+// history on the limb lattice, operations (k, a, b) with y = b*B^a (kinds: spec/Accumulator.tla):
+// 0 += y; 1 negate; 2 *= int b; 3 *= T(b); 4 probe a(y); 5 a = y; 6 -= y; 7 compare with y; 8 remainder(y) (terminal);
+// 9 copy construction; 10 assignment over an unrelated accumulator; 11 a = Accumulator(y);
+// first operation: 12 Accumulator a(y); 13 Accumulator a = y; 14 Accumulator a
 template<class T> static void do_acc(const vector<long long>& ops, const char* src) {
   typedef FT<T> F;
   int bb = F::P == 24 ? 15 : 30;
-  Accumulator<T> acc;
+  unique_ptr<Accumulator<T>> pa;
   string hist = "[", obs = "[";
   M held(BIG), h2(BIG), pr(BIG);
-  for (size_t i = 0; i + 2 < ops.size() + 0 && i + 2 < ops.size() + 1; i += 3) {
-    if (i + 2 >= ops.size()) break;
+  for (size_t i = 0; i + 2 < ops.size(); i += 3) {
     long long k = ops[i], a = ops[i + 1], b = ops[i + 2];
     T y = ldexp(T(b), int(bb * a));
-    int pk = 0, peq = 0;
+    int pk = 0, peq = 0; string extra;
+    if (hist.size() > 1) hist += ",";
+    hist += "[" + to_string(k) + "," + to_string(a) + "," + to_string(b) + "]";
+    if (k == 12) pa.reset(new Accumulator<T>(y));
+    else if (k == 13) { Accumulator<T> t = y; pa.reset(new Accumulator<T>(t)); }
+    else if (k == 14) pa.reset(new Accumulator<T>);
+    else if (!pa) pa.reset(new Accumulator<T>(numeric_limits<T>::quiet_NaN()));       // malformed history: visible as NaN
+    Accumulator<T>& acc = *pa;
     switch (k) {
     case 0: acc += y; break;
     case 1: acc *= -1; break;
     case 2: acc *= int(b); break;
     case 3: acc *= T(b); break;
-    default: { T v = acc(y); Accumulator<T> cpy(acc); cpy += y; peq = (numj(v) == numj(T(cpy()))) ? 0 : 1; } break;
+    case 4: { T v = acc(y); Accumulator<T> cpy(acc); cpy += y; peq = (numj(v) == numj(T(cpy()))) ? 0 : 1; } break;
+    case 5: acc = y; break;
+    case 6: acc -= y; break;
+    case 7: extra = "," + cmp_family(acc, y); break;
+    case 8: rem_record(acc, y, src, bb, hist + "]"); acc.remainder(y); extra = "," + to_string(lowword(acc) != 0 ? 1 : 0); break;
+    case 9: { unique_ptr<Accumulator<T>> c(new Accumulator<T>(acc)); pa.swap(c); } break;
+    case 10: { unique_ptr<Accumulator<T>> c(new Accumulator<T>(T(77))); *c += T(0.001); *c = acc; pa.swap(c); } break;
+    case 11: acc = Accumulator<T>(y); break;
+    default: break;
     }
-    bool ok = peel(acc, held); bool lok = false;
+    Accumulator<T>& cur = *pa;
+    bool ok = peel(cur, held); bool lok = false;
     vector<long long> L = limbs3(held, bb, lok);
     // a(0) against the correctly rounded held value
-    T a0 = acc(T(0)); long long a0d = ok ? ucr(a0, held) : CLIP;
-    if (hist.size() > 1) { hist += ","; obs += ","; }
-    hist += "[" + to_string(k) + "," + to_string(a) + "," + to_string(b) + "]";
+    T a0 = cur(T(0)); long long a0d = ok ? ucr(a0, held) : CLIP;
+    if (obs.size() > 1) obs += ",";
     obs += "[" + to_string(ok && lok ? 1 : 0) + "," + to_string(L[0]) + "," + to_string(L[1]) + "," + to_string(L[2]) + "," +
-           to_string(a0d) + "," + to_string(peq) + "," + to_string(pk) + "]";
+           to_string(a0d) + "," + to_string(peq) + "," + to_string(pk) + extra + "]";
   }
   Rec r; r.str("e", "acc").str("ty", string(1, F::tag)).str("src", src).i("bb", bb).raw("ops", hist + "]").raw("obs", obs + "]");
   r.emit();
 }
 
-// random history: exact value tracked with MPFR; residual |held - exact| in units of 2^(2-2P) * (largest magnitude seen)
+// random history: exact value tracked with MPFR; residual |held - exact| in units of 2^(2-2P) * (largest magnitude seen).
+// The history starts from one of the constructor forms (default / from a value), may restart with a = y, copies itself,
+// and is compared with numbers; `oneword` histories add integers of one binade only, so that the low word stays zero.
 template<class T> static void do_acc_random(vt::Rng& g, const char* src) {
   typedef FT<T> F;
-  Accumulator<T> acc; M ex(BIG), held(BIG), my(BIG), mx(BIG), d(BIG), before(BIG);
+  M ex(BIG), held(BIG), my(BIG), mx(BIG), d(BIG), before(BIG);
   mpfr_set_zero(ex, 1); mpfr_set_zero(mx, 1);
+  bool oneword = g.range(0, 2) == 0;
   int n = int(g.range(2, 24)), nmul = 0, nerr = 0; int e0 = F::P == 24 ? int(g.range(-25, 25)) : int(g.range(-60, 60)), spread = int(g.range(0, 3)) * (F::P == 24 ? 15 : 40);
-  string obs = "[";
+  if (oneword) { spread = 0; n = int(g.range(2, 12)); }
+  string obs = "[", cmps = "[";
   auto rnd = [&]() { T v = T(g.uni(-1, 1)); int e = e0 + int(g.range(-spread, spread)); v = ldexp(v, e);
-                     if (g.range(0, 7) == 0) v = ldexp(T(g.range(-8, 8)), e); return v; };
+                     if (g.range(0, 7) == 0) v = ldexp(T(g.range(-8, 8)), e);
+                     if (oneword) v = ldexp(T(g.range(-100000, 100000)), e0);
+                     return v; };
+  // constructor form
+  unique_ptr<Accumulator<T>> pa; int cform = int(g.range(0, 2));
+  if (cform == 0) pa.reset(new Accumulator<T>);
+  else { T y0 = rnd(); if (cform == 1) pa.reset(new Accumulator<T>(y0)); else { Accumulator<T> t = y0; pa.reset(new Accumulator<T>(t)); }
+         mset(ex, y0); mpfr_abs(mx, ex, MPFR_RNDN); }
   for (int i = 0; i < n; ++i) {
-    int k = int(g.range(0, 9)); int kind; long long pk = 0, peq = 0, rk = 0, rr = -1;
+    Accumulator<T>& acc = *pa;
+    int k = int(g.range(0, 13)); int kind; long long pk = 0, peq = 0;
     T y = rnd();
     if (k <= 5) { kind = 0; if (g.range(0, 5) == 0) { acc -= y; y = -y; } else acc += y; mset(my, y); mpfr_add(ex, ex, my, MPFR_RNDN); ++nerr; }
     else if (k == 6) { kind = 1; acc *= -1; mpfr_neg(ex, ex, MPFR_RNDN); y = 0; }
-    else if (k == 7) { kind = 2; int m = g.coin() ? 2 : -4; acc *= m; mpfr_mul_si(ex, ex, m, MPFR_RNDN); y = 0; }
-    else if (k == 8 && nmul < 3) { kind = 3; y = T(g.uni(-3, 3)); acc *= y; mset(my, y); mpfr_mul(ex, ex, my, MPFR_RNDN); ++nmul; ++nerr; y = 0; }
+    else if (k == 7) { kind = 2; int m = g.coin() ? 2 : -4; if (oneword) m = -1; acc *= m; mpfr_mul_si(ex, ex, m, MPFR_RNDN); y = 0; }
+    else if (k == 8 && nmul < 3) { kind = 3; y = oneword ? T(3) : T(g.uni(-3, 3)); acc *= y; mset(my, y); mpfr_mul(ex, ex, my, MPFR_RNDN); ++nmul; ++nerr; y = 0; }
+    else if (k == 9) { kind = 5; if (g.coin()) acc = y; else acc = Accumulator<T>(y); mset(ex, y); nerr = 0; mpfr_set_zero(mx, 1); }   // restart: set sum = y
+    else if (k == 10) { kind = 9; if (g.coin()) { unique_ptr<Accumulator<T>> c(new Accumulator<T>(acc)); pa.swap(c); }
+                        else { unique_ptr<Accumulator<T>> c(new Accumulator<T>(T(77))); *c += T(0.001); *c = acc; pa.swap(c); } y = 0; }
+    else if (k == 11) { kind = 7; int w = int(g.range(0, 4)); T v = acc();
+                        T yc = w == 0 ? T(0) : w == 1 ? v : w == 2 ? nextafter(v, T(1e30)) : w == 3 ? nextafter(v, T(-1e30)) : y;
+                        if (cmps.size() > 1) cmps += ","; cmps += cmp_family(acc, yc); y = 0; }
     else { kind = 4; peel(acc, before); T v = acc(y); Accumulator<T> cpy(acc); cpy += y; peq = (numj(v) == numj(T(cpy()))) ? 0 : 1;
            peel(acc, held); pk = mpfr_equal_p(before, held) ? 0 : 1; }
+    Accumulator<T>& cur = *pa;
     mset(my, y); if (mpfr_cmpabs(my, mx) > 0) mpfr_abs(mx, my, MPFR_RNDN);
     if (mpfr_cmpabs(ex, mx) > 0) mpfr_abs(mx, ex, MPFR_RNDN);
-    bool ok = peel(acc, held);
+    bool ok = peel(cur, held);
     long long err = CLIP;
     if (ok) { mpfr_sub(d, held, ex, MPFR_RNDN); mpfr_abs(d, d, MPFR_RNDN);
       if (mpfr_zero_p(d)) err = 0;
       else if (!mpfr_zero_p(mx)) { mpfr_div(d, d, mx, MPFR_RNDN); mpfr_mul_2si(d, d, 2 * F::P - 2, MPFR_RNDN);
         err = mpfr_cmp_d(d, 1.9e9) >= 0 ? CLIP : (long long) ceil(mpfr_get_d(d, MPFR_RNDU)); } }
-    T a0 = acc(T(0)); long long a0d = ok ? ucr(a0, held) : CLIP;
+    T a0 = cur(T(0)); long long a0d = ok ? ucr(a0, held) : CLIP;
     if (i) obs += ",";
     obs += "[" + to_string(kind) + "," + to_string(ok ? 1 : 0) + "," + to_string(err) + "," + to_string(nerr) + "," + to_string(a0d) + "," +
            to_string(peq) + "," + to_string(pk) + "]";
-    (void) rk; (void) rr;
   }
-  // remainder(y): held' == held (mod y) exactly and |a()| <= y/2 (+ one spacing)
+  Accumulator<T>& acc = *pa;
+  // remainder(y): held' == held (mod y) exactly (here); the documented range is judged on the separate "rem" record
   T ym = T(360) * ldexp(T(1), int(g.range(-3, 3)));
+  if (oneword) ym = ldexp(T(g.range(1, 4000)), e0);
+  rem_record(acc, ym, src, F::P == 24 ? 15 : 30, "[]");
   peel(acc, before); acc.remainder(ym); bool ok = peel(acc, held);
   long long rk = CLIP; int rr = 2;
   if (ok) { M q(BIG), m(BIG); mset(m, ym); mpfr_sub(d, held, before, MPFR_RNDN); mpfr_div(q, d, m, MPFR_RNDN);
     rk = mpfr_integer_p(q) ? 0 : 1;
     T lim = nextup(ym / 2); rr = cmp3<T>(fabs(acc()), lim); }
-  Rec r; r.str("e", "accr").str("ty", string(1, F::tag)).str("src", src).raw("obs", obs + "]").i("rk", rk).i("rr", rr);
+  Rec r; r.str("e", "accr").str("ty", string(1, F::tag)).str("src", src).i("cform", cform).i("ow", oneword ? 1 : 0)
+    .raw("obs", obs + "]").raw("cmps", cmps + "]").i("rk", rk).i("rr", rr);
   r.emit();
+}
+
+// ------------------------------------------------------------------ helpers (polyval, sq, norm, hypot3, swab, NaN, infinity)
+template<class T> static void do_pv(const vector<long long>& p, long long x) {
+  typedef FT<T> F;
+  vector<T> c; for (long long a : p) c.push_back(T(a));
+  T dummy = 0; const T* pp = c.empty() ? &dummy : c.data();
+  T v = Math::polyval(int(c.size()) - 1, pp, T(x));
+  bool n0nan = true, n0inf = true;          // N = 0: p_0 "even if x is infinite or a nan"
+  if (!c.empty()) { T a = Math::polyval(0, pp, numeric_limits<T>::quiet_NaN()), b = Math::polyval(0, pp, -numeric_limits<T>::infinity());
+                    n0nan = a == c[0]; n0inf = b == c[0]; }
+  string ps = "["; for (size_t i = 0; i < p.size(); ++i) { if (i) ps += ","; ps += to_string(p[i]); } ps += "]";
+  Rec r; r.str("e", "msc").str("k", "pv").str("ty", string(1, F::tag)).raw("p", ps).i("x", x)
+    .i("v", std::isfinite(v) && fabs(v) < T(2e9) ? (long long) v : CLIP).b("ex", std::isfinite(v) && v == floor(v)).b("n0nan", n0nan).b("n0inf", n0inf);
+  r.emit();
+}
+template<class T> static void do_sq(long long m, int e) {
+  typedef FT<T> F;
+  T x = ldexp(T(m), e), y = Math::sq(x);
+  M ex(BIG); mset(ex, x); mpfr_mul(ex, ex, ex, MPFR_RNDN);
+  Rec r; r.str("e", "msc").str("k", "sq").str("ty", string(1, F::tag)).i("xm", m).i("xe", e).raw("y", numj(y)).i("u", ucr(y, ex));
+  r.emit();
+}
+template<class T> static void do_nrm(long long a, long long b, long long h, int k) {
+  typedef FT<T> F;
+  T x = ldexp(T(a), k), y = ldexp(T(b), k); Math::norm(x, y);
+  M ex(BIG), hh(BIG); mpfr_set_si(hh, h, MPFR_RNDN);
+  mpfr_set_si(ex, a, MPFR_RNDN); mpfr_div(ex, ex, hh, MPFR_RNDN); long long ux = ucr(x, ex);
+  mpfr_set_si(ex, b, MPFR_RNDN); mpfr_div(ex, ex, hh, MPFR_RNDN); long long uy = ucr(y, ex);
+  Rec r; r.str("e", "msc").str("k", "nrm").str("ty", string(1, F::tag)).i("a", a).i("b", b).i("h", h).i("sc", k).i("ux", ux).i("uy", uy);
+  r.emit();
+}
+template<class T> static void do_h3(int n, long long m, int e) {
+  typedef FT<T> F;
+  T x = ldexp(T(m), e), z = 0, nz = -z;
+  T v = n == 1 ? Math::hypot3(x, z, nz) : n == 2 ? Math::hypot3(nz, x, z) : Math::hypot3(z, nz, x);
+  Rec r; r.str("e", "msc").str("k", "h3").str("ty", string(1, F::tag)).i("n", n).i("xm", m).i("xe", e).b("same", numj(v) == numj(T(fabs(x))));
+  r.emit();
+}
+template<class U> static void do_swab(U x, const char* ty) {
+  U y = Math::swab<U>(x), z = Math::swab<U>(y);
+  unsigned char a[sizeof(U)], b[sizeof(U)]; memcpy(a, &x, sizeof(U)); memcpy(b, &y, sizeof(U));
+  bool rev = true; for (size_t i = 0; i < sizeof(U); ++i) rev = rev && a[i] == b[sizeof(U) - 1 - i];
+  Rec r; r.str("e", "msc").str("k", "swab").str("ty", ty).i("n", (long long) sizeof(U)).b("rev", rev).b("inv", memcmp(&x, &z, sizeof(U)) == 0);
+  r.emit();
+}
+template<class T> static void do_const() {
+  typedef FT<T> F; T n = Math::NaN<T>(), i = Math::infinity<T>();
+  Rec r; r.str("e", "msc").str("k", "const").str("ty", string(1, F::tag)).b("nan", std::isnan(n)).b("pinf", std::isinf(i) && i > 0);
+  r.emit();
+}
+static void do_msc_fixed(vt::Rng& g) {
+  for (int i = 0; i < 40; ++i) { uint64_t u = g.next();
+    do_swab<uint64_t>(u, "u64"); do_swab<uint32_t>(uint32_t(u), "u32"); do_swab<uint16_t>(uint16_t(u), "u16"); do_swab<unsigned char>((unsigned char) u, "u8");
+    double d; memcpy(&d, &u, 8); do_swab<double>(d, "d"); float f; uint32_t w = uint32_t(u >> 7); memcpy(&f, &w, 4); do_swab<float>(f, "f"); }
+  do_const<float>(); do_const<double>(); do_const<long double>();
 }
 
 // ------------------------------------------------------------------ inputs
@@ -470,7 +609,9 @@ template<class T> static void record_group(vt::Rng& g, long long it) {
     if (v == 2) tau = numeric_limits<T>::quiet_NaN(); if (v == 3) tau = g.coin() ? T(0) : -T(0); if (v == 4) tau = T(g.uni(-3, 3));
     do_tau<T>(tau, es, "rnd");
   } else {
-    if (FT<T>::P == 64) do_one<T>(rnd_angle<T>(g), "rnd"); else do_acc_random<T>(g, "rnd");
+    if (FT<T>::P == 64) do_one<T>(rnd_angle<T>(g), "rnd");
+    else if (g.range(0, 7) == 0) do_rem_edge<T>(g);
+    else do_acc_random<T>(g, "rnd");
   }
 }
 
@@ -499,6 +640,13 @@ int main(int argc, char** argv) {
       if (t[0] == "one" && t.size() >= 4) { float x = mkf(t, 1); do_one<float>(x, "lat"); if (dbl) do_one<double>(double(x), "lat"); }
       else if (t[0] == "two" && t.size() >= 7) { float a = mkf(t, 1), b = mkf(t, 4); do_two<float>(a, b, "lat"); if (dbl) do_two<double>(double(a), double(b), "lat"); }
       else if (t[0] == "trp" && t.size() >= 7) { float a = mkf(t, 1), b = mkf(t, 4); do_trp<float>(a, b, "lat"); if (dbl) do_trp<double>(double(a), double(b), "lat"); }
+      else if (t[0] == "pv" && t.size() >= 3) { long long n = atoll(t[1].c_str()); vector<long long> p; for (long long i = 0; i < n; ++i) p.push_back(atoll(t[2 + i].c_str()));
+        long long x = atoll(t[2 + n].c_str()); do_pv<float>(p, x); if (dbl) { do_pv<double>(p, x); do_pv<long double>(p, x); } }
+      else if (t[0] == "sq" && t.size() >= 3) { do_sq<float>(atoll(t[1].c_str()), atoi(t[2].c_str())); if (dbl) do_sq<double>(atoll(t[1].c_str()), atoi(t[2].c_str())); }
+      else if (t[0] == "nrm" && t.size() >= 5) { long long a = atoll(t[1].c_str()), b = atoll(t[2].c_str()), h = atoll(t[3].c_str()); int k = atoi(t[4].c_str());
+        do_nrm<float>(a, b, h, k); if (dbl) { do_nrm<double>(a, b, h, k); do_nrm<long double>(a, b, h, k); } }
+      else if (t[0] == "h3" && t.size() >= 4) { int n = atoi(t[1].c_str()); long long m = atoll(t[2].c_str()); int e = atoi(t[3].c_str());
+        do_h3<float>(n, m, e); if (dbl) { do_h3<double>(n, m, e); do_h3<long double>(n, m, e); } }
       else if (t[0] == "acc" && t.size() >= 2) {
         vector<long long> ops; for (size_t i = 2; i < t.size(); ++i) ops.push_back(atoll(t[i].c_str()));
         if (t[1] == "f") do_acc<float>(ops, "lat"); else do_acc<double>(ops, "lat");
@@ -509,6 +657,7 @@ int main(int argc, char** argv) {
   if (argc >= 4 && string(argv[1]) == "record") {
     uint64_t seed = strtoull(argv[2], 0, 10); long long n = atoll(argv[3]);
     vt::Rng g(seed);
+    do_msc_fixed(g);
     for (long long it = 0; it < n; ++it) {
       int ty = int((it / 8) % 3);
       if (ty == 0) record_group<double>(g, it); else if (ty == 1) record_group<float>(g, it); else record_group<long double>(g, it);
